@@ -18,8 +18,9 @@
 (*                                                                         *)
 (* Numbers.  Every number is an integer scaled by 65536 (16.16), so the    *)
 (* four charstring encodings (1, 2, 3 bytes and 5-byte 16.16) decode into  *)
-(* one domain.  The modelled domain is |v| <= 2^30 (16384.0 units): a      *)
-(* value outside it halts the machine with why = "Range" (not judged).     *)
+(* one domain.  TLC integers are 32 bit, so the modelled domain is         *)
+(* |coordinate| <= 16384.0, |delta| <= 4096.0 (blend deltas 1024.0): an    *)
+(* operand outside it halts the machine with why = "Range" (not judged).   *)
 (*                                                                         *)
 (* Font context fc (constant during a run):                                *)
 (*   kind    "cff" | "cff2"                                                *)
@@ -34,10 +35,24 @@
 EXTENDS Integers, Sequences, FiniteSets, TLC
 
 ONE == 65536
-LIM == 1073741824          \* 2^30
+LIM  == 1073741824         \* 2^30: bound on coordinates (16384.0 units)
+DLIM == 268435456          \* 2^28: bound on the deltas of moves and path operators (4096.0 units)
+BLIM == 67108864           \* 2^26: bound on blend deltas (1024.0 units)
 
 Abs(v) == IF v < 0 THEN 0 - v ELSE v
 InDom(v) == v >= 0 - LIM /\ v <= LIM
+\* v / 65536 is exactly representable as an IEEE single (24-bit significand)
+F32Exact(v) ==
+  LET a == IF v = -2147483647 - 1 THEN 0 ELSE Abs(v) IN
+  IF a < 16777216 THEN TRUE
+  ELSE IF a < 33554432 THEN a % 2 = 0
+  ELSE IF a < 67108864 THEN a % 4 = 0
+  ELSE IF a < 134217728 THEN a % 8 = 0
+  ELSE IF a < 268435456 THEN a % 16 = 0
+  ELSE IF a < 536870912 THEN a % 32 = 0
+  ELSE IF a < 1073741824 THEN a % 64 = 0
+  ELSE a % 128 = 0
+AllWithin(a, lim) == \A i \in 1 .. Len(a) : a[i] >= 0 - lim /\ a[i] <= lim
 
 ---------------------------------------------------------------------------
 \* Number encodings (TN5177 section 3.2)
@@ -287,6 +302,7 @@ TakeWidth(fc, m, extra) ==
 MoveArgs(fc, m, nargs) ==
   LET w == TakeWidth(fc, m, Len(m.stack) = nargs + 1) IN
   IF ~w.ok \/ Len(w.a) # nargs THEN [ok |-> FALSE, m |-> Fail(m, "BadArgs"), a |-> <<>>]
+  ELSE IF ~AllWithin(w.a, DLIM) THEN [ok |-> FALSE, m |-> Fail(m, "Range"), a |-> <<>>]
   ELSE w
 
 \* apply relative segments to the open contour
@@ -313,6 +329,7 @@ Op_vmoveto(fc, m) ==
 Op_path(fc, m, op) ==
   LET r == OpSegs(op, m.stack) IN
   IF ~m.open THEN Fail(m, "NoMoveTo")
+  ELSE IF ~AllWithin(m.stack, DLIM) THEN Fail(m, "Range")
   ELSE IF ~r.ok THEN Fail(m, "BadArgs")
   ELSE Clear(ApplySegs(m, r.segs, 1))
 
@@ -415,6 +432,8 @@ Op_blend(fc, m) ==
       need == n * (k + 1)
       have == Len(m.stack) - 1 IN
   IF have < need THEN Fail(m, "BadArgs")
+  ELSE IF k > 15 \/ ~AllWithin(SubSeq(m.stack, have - need + 1, have - need + n), LIM \div 2)
+            \/ ~AllWithin(SubSeq(m.stack, have - need + n + 1, have), BLIM) THEN Fail(m, "Range")
   ELSE
   LET base == have - need
       defaults == SubSeq(m.stack, base + 1, base + n)
@@ -445,8 +464,7 @@ Step(fc, m) ==
   THEN LET k == NumLen(b0) IN
        IF f.pc + k - 1 > Len(f.code) THEN Fail(m, "NumberTruncated")
        ELSE LET v == NumVal(f.code, f.pc) IN
-            IF ~InDom(v) THEN Fail(m, "Range")
-            ELSE IF Len(m.stack) >= StackLimit(fc) THEN Fail(m, "StackOverflow")
+            IF Len(m.stack) >= StackLimit(fc) THEN Fail(m, "StackOverflow")
             ELSE [Advance(m, k) EXCEPT !.stack = Append(@, v),
                                        !.maxStack = IF Len(m.stack) + 1 > @ THEN Len(m.stack) + 1 ELSE @]
   ELSE
